@@ -110,11 +110,15 @@ def _expr(a, b, c, shape):
     return text == again
 
 
+BP = __BP__       # pools of the second / third operator index (tier dependent)
+CP = __CP__
+
+
 def expr_fixed_point_ok(a0: bool, a1: bool, a2: bool, a3: bool, b0: bool, b1: bool, b2: bool, b3: bool,
                         c0: bool, c1: bool, c2: bool, c3: bool, s0: bool, s1: bool, s2: bool) -> bool:
     """
-    pre: sel(a0, a1, a2, a3) < 12 and sel(b0, b1, b2, b3) < 12 and sel(c0, c1, c2, c3) < 12 and sel(s0, s1, s2) < 5
+    pre: sel(a0, a1, a2, a3) < 12 and sel(b0, b1, b2, b3) < len(BP) and sel(c0, c1, c2, c3) < len(CP) and sel(s0, s1, s2) < 5
     pre: sel(a0, a1, a2, a3) % 4 == T
     post: _
     """
-    return concrete(_expr, sel(a0, a1, a2, a3), sel(b0, b1, b2, b3), sel(c0, c1, c2, c3), sel(s0, s1, s2))
+    return concrete(_expr, sel(a0, a1, a2, a3), BP[sel(b0, b1, b2, b3)], CP[sel(c0, c1, c2, c3)], sel(s0, s1, s2))
